@@ -43,6 +43,17 @@ pub fn resolve_instruction(
     let maybe_chosen_encoding =
         maybe_encodings.as_ref().map(|e| e[0].1.clone());
 
+    #[cfg(hlorenzi_customasm_verif)]
+    {
+        crate::verif::note("nsmallest", crate::verif::V::I(
+            maybe_encodings.as_ref().map_or(0, |e| e.len()) as i128));
+        crate::verif::note("chosen", match maybe_encodings.as_ref()
+        {
+            Some(e) => crate::verif::V::I(e[0].0 as i128),
+            None => crate::verif::V::Null,
+        });
+    }
+
     // Reassign matches to satisfy the borrow checker
     let instr = defs.instructions.get_mut(ast_instr.item_ref.unwrap());
     instr.matches = matches;
